@@ -391,6 +391,26 @@ def fl_arith(op, a, b):
   facts = [z3.Implies(z3.Or(Flt.is_NAN(a), Flt.is_NAN(b)), Flt.is_NAN(r)),
            z3.Implies(fr, z3.And(rr <= MAX_DOUBLE, rr >= -MAX_DOUBLE))]
   both = z3.And(fa, fb)
+  pa, na, pb, nb = Flt.is_PINF(a), Flt.is_NINF(a), Flt.is_PINF(b), Flt.is_NINF(b)
+  if op in ('+', '-'):
+    # infinities: a - b is a + (-b)
+    qb, mb = (pb, nb) if op == '+' else (nb, pb)
+    facts += [z3.Implies(z3.And(pa, z3.Or(fb, qb)), Flt.is_PINF(r)), z3.Implies(z3.And(na, z3.Or(fb, mb)), Flt.is_NINF(r)),
+              z3.Implies(z3.And(fa, qb), Flt.is_PINF(r)), z3.Implies(z3.And(fa, mb), Flt.is_NINF(r)),
+              z3.Implies(z3.Or(z3.And(pa, mb), z3.And(na, qb)), Flt.is_NAN(r))]
+  elif op == '*':
+    posb, negb = z3.Or(pb, z3.And(fb, rb > 0)), z3.Or(nb, z3.And(fb, rb < 0))
+    posa, nega = z3.Or(pa, z3.And(fa, ra > 0)), z3.Or(na, z3.And(fa, ra < 0))
+    inf_any = z3.Or(pa, na, pb, nb)
+    facts += [z3.Implies(z3.And(inf_any, z3.Or(z3.And(posa, posb), z3.And(nega, negb))), Flt.is_PINF(r)),
+              z3.Implies(z3.And(inf_any, z3.Or(z3.And(posa, negb), z3.And(nega, posb))), Flt.is_NINF(r)),
+              z3.Implies(z3.And(inf_any, z3.Or(z3.And(fa, ra == 0), z3.And(fb, rb == 0))), Flt.is_NAN(r))]
+  else:
+    posb, negb = z3.And(fb, rb > 0), z3.And(fb, rb < 0)
+    facts += [z3.Implies(z3.And(pa, posb), Flt.is_PINF(r)), z3.Implies(z3.And(pa, negb), Flt.is_NINF(r)),
+              z3.Implies(z3.And(na, posb), Flt.is_NINF(r)), z3.Implies(z3.And(na, negb), Flt.is_PINF(r)),
+              z3.Implies(z3.And(fa, z3.Or(pb, nb)), r == zero),
+              z3.Implies(z3.And(z3.Or(pa, na), z3.Or(pb, nb)), Flt.is_NAN(r))]
   if op == '+':
     facts += [z3.Implies(both, z3.Not(Flt.is_NAN(r))),
               z3.Implies(z3.And(both, rb >= 0), ge(r, a)), z3.Implies(z3.And(both, rb <= 0), le(r, a)),
